@@ -301,10 +301,12 @@ func (sw *StreamWriter) Flush() error {
 		if err := sw.db.syncDir(sw.db.opt.ValueDir); err != nil {
 			return err
 		}
+		vevent(10, sw.db.opt.ValueDir, 0, 0) // verif: syncdir
 	}
 	if err := sw.db.syncDir(sw.db.opt.Dir); err != nil {
 		return err
 	}
+	vevent(10, sw.db.opt.Dir, 0, 0) // verif: syncdir
 	return sw.db.lc.validate()
 }
 
